@@ -267,13 +267,13 @@ def check_case(ctx, case):
                 # the very continuum object of the reference run first serves a computation with ANOTHER dissimilarity of the same
                 # class / delta_empty / categories / weights (another matrix, other positions), then the scenario is repeated on it
                 alt = ac.same_parameters_other_measure(random.Random(sseed), sc["dissim"])
-                if alt is None:
+                if alt is None or sc["mode"] == "fast":      # (fast mode records a window size on the continuum: documented state)
                     continue
                 ctx.count("M-HISTORY")
-                d0, c0 = ref_objects
+                c1 = cases.build_continuum(sc["continuum"])        # a continuum object whose FIRST computation is the other one
                 np.random.seed(4243)
-                c0.compute_gamma(cases.build_dissim(alt), n_samples=2, fast=sc["mode"] == "fast", soft=sc["mode"] == "soft")
-                dig, vals, recs, off = result_vector(ctx, sc, "fifo", workers, sseed, objects=ref_objects)
+                c1.compute_gamma(cases.build_dissim(alt), n_samples=2, fast=sc["mode"] == "fast", soft=sc["mode"] == "soft")
+                dig, vals, recs, off = result_vector(ctx, sc, "fifo", workers, sseed, objects=(cases.build_dissim(sc["dissim"]), c1))
             elif policy == "history:after-a-transient-solver-failure":
                 ctx.count("M-HISTORY")
                 spy_, pool_ = ac.setup(ctx)
